@@ -406,6 +406,18 @@ def standard_proof_phase(ctx, prop, cone_targets):
         extra = [a for a in ass[n] if a not in AXIOM_ALLOW and a.split(".")[-1] not in AXIOM_ALLOW]
         if extra:
             raise MachineryError(f"{n} depends on axioms outside the allowlist: {extra}")
+    if ctx.tier == "thorough":
+        # the independent checker re-checks the compiled property file and everything it depends on
+        p = sh(["coqchk", "-o", "-silent", "-Q", "theories", "DV", f"DV.Properties.{prop}"], cwd=COQ, timeout=3000)
+        m = re.search(r"\* Axioms:(.*?)\n\s*\n\* Constants", p.stdout + p.stderr, re.S)
+        if p.returncode != 0 or not m:
+            ctx.violation("coqchk", {"broken": "coqchk rejects the compiled development of " + prop, "log_tail": (p.stdout + p.stderr)[-2000:]}, found_input=False)
+            return None
+        axioms = [a.strip() for a in m.group(1).split("\n") if a.strip() and a.strip() != "<none>"]
+        extra = [a for a in axioms if a not in AXIOM_ALLOW and a.split(".")[-1] not in AXIOM_ALLOW]
+        if extra:
+            raise MachineryError(f"coqchk: {prop} depends on axioms outside the allowlist: {extra}")
+        ass = dict(ass); ass["coqchk -o (independent re-check of the .vo files)"] = axioms
     return names, ass
 
 
